@@ -20,6 +20,22 @@ TraceRegInit == TLCSet(42, 1)
 TraceProgress(l) ==
     IF TLCGet(42) < l THEN TLCSet(42, l) ELSE TRUE
 
+\* ---- alternatives ---------------------------------------------------------------------------
+\* Calls that OVERLAPPED in a concurrent execution have no recorded order.  The check writes every
+\* linearization that respects the recorded real-time order as one alternative of a group
+\*     {"k":"alt","nx":n,"to":0}  records of alternative 1  {"k":"altjoin","nx":0,"to":m}
+\*     {"k":"alt","nx":n',"to":0} records of alternative 2  {"k":"altjoin","nx":0,"to":m'} ...
+\* (nx: distance to the next alternative's alt record, 0 for the last; to: distance to the first
+\* record after the group; lib/vp.py alt_block).  A trace specification adds the disjunct
+\*     AltJump == IsAltRec(l) /\ l' \in AltTargets(l) /\ UNCHANGED vars
+\* so that TLC explores the alternatives from the same specification state; the trace is accepted
+\* if SOME alternative of every group is explained (a history is linearizable iff one is).
+IsAltRec(l) == l <= NRec /\ Rec[l].k \in {"alt", "altjoin"}
+AltTargets(l) ==
+    IF Rec[l].k = "alt"
+    THEN {l + 1} \cup (IF Rec[l].nx > 0 THEN {l + Rec[l].nx} ELSE {})
+    ELSE {l + Rec[l].to}
+
 \* used as POSTCONDITION
 TraceAccepted ==
     LET m == TLCGet(42) IN
